@@ -1,9 +1,14 @@
 package checks
 
 import (
+	"bufio"
 	"bytes"
+	"encoding/base64"
 	"fmt"
+	"io"
 	"math/rand"
+	"net"
+	"os"
 	"strings"
 	"time"
 
@@ -174,6 +179,162 @@ func evalC19Line(c C19LineCase) *h.Finding {
 	}
 	return nil
 }
+
+// ---- long SASL responses on a server with a raised line limit; characters whose case mapping changes their length ----
+
+type C19LongAuthCase struct {
+	Limit   int  `json:"limit"`   // Server.MaxLineLength
+	Len     int  `json:"len"`     // octets of the SASL response before base64
+	Initial bool `json:"initial"` // as initial response on the AUTH line / as answer to the 334
+}
+
+func evalC19LongAuth(c C19LongAuthCase) *h.Finding {
+	pc := ref.PConfig{AllowInsecureAuth: true, AuthBackend: true}
+	cfg, be := serverFor(pc)
+	cfg.MaxLineLength = c.Limit
+	resp := base64.StdEncoding.EncodeToString(bytes.Repeat([]byte("r"), c.Len))
+	in := "EHLO c.example\r\n"
+	nPre := 2
+	if c.Initial {
+		in += "AUTH ONE " + resp + "\r\n"
+	} else {
+		in += "AUTH ONE\r\n" + resp + "\r\n"
+		nPre = 3
+	}
+	in += "NOOP\r\n"
+	o := h.RunS(cfg, be, h.OneSeg([]byte(in)), h.TermEOF)
+	desc := fmt.Sprintf("MaxLineLength %d, a SASL response of %d octets (%d base64 characters), initial=%t", c.Limit, c.Len, len(resp), c.Initial)
+	if f := o.Sanity("c19", desc); f != nil {
+		return f
+	}
+	if strings.Contains(o.Log, "panic") {
+		return h.F("c19-recovered-panic", "%s: recovered panic: %s", desc, firstLogLine(o.Log))
+	}
+	// the line is within the limit: the mechanism gets exactly these octets, the exchange ends with ONE final reply and the
+	// NOOP behind it is answered
+	wantArg := fmt.Sprintf("%q", bytes.Repeat([]byte("r"), c.Len))
+	seen := false
+	for _, e := range o.Trace {
+		if e.Kind == "Next" && e.Arg == wantArg {
+			seen = true
+		}
+	}
+	if !seen {
+		return h.F("c19-short-line-refused", "%s: the mechanism did not receive the response intact (replies %s; mechanism inputs: %.200s)", desc, o.Codes(), h.Calls(o.Trace))
+	}
+	if len(o.Replies) != nPre+2 || o.Replies[nPre+1].Code != 250 {
+		return h.F("c19-short-line-replies", "%s: replies %s, want %d for the prologue, one final AUTH reply and 250 for NOOP", desc, o.Codes(), nPre)
+	}
+	return nil
+}
+
+func init() { h.RegisterReplayer("c19-long-auth", evalC19LongAuth) }
+
+// ---- real sockets: an endless line over the loopback interface / a Unix socket ---------------------------------
+
+// C19SockCase: a real listener (Server.Serve), one client that sends Prefix commands and then a line that never ends.
+// The oracle counts octets, not seconds: once the server has answered and closed, a client cannot get rid of more than
+// what the kernel's socket buffers hold; a client that manages to write 96 MiB behind the limit is being read by
+// somebody.
+type C19SockCase struct {
+	Network string `json:"network"` // tcp | unix
+	Pos     string `json:"pos"`     // first | after-ehlo
+	ReadTO  bool   `json:"read_timeout,omitempty"`
+}
+
+const c19SockVolume = 96 << 20
+
+func evalC19Sock(c C19SockCase) (f *h.Finding) {
+	desc := fmt.Sprintf("%+v", c)
+	defer h.GuardEnter("C19 real socket " + desc)()
+	be := &h.Backend{}
+	cfg := h.Config{}
+	if c.ReadTO {
+		cfg.ReadTO = 10 * time.Minute
+	}
+	srv := cfg.NewServer(be, &h.LogBuf{})
+	var ln net.Listener
+	var err error
+	if c.Network == "unix" {
+		dir, derr := os.MkdirTemp("", "c19sock")
+		if derr != nil {
+			return h.F("harness-error", "tempdir: %v", derr)
+		}
+		defer os.RemoveAll(dir)
+		ln, err = net.Listen("unix", dir+"/s")
+	} else {
+		ln, err = net.Listen("tcp", "127.0.0.1:0")
+	}
+	if err != nil {
+		return h.F("harness-error", "listen: %v", err)
+	}
+	served := make(chan struct{})
+	go func() { srv.Serve(ln); close(served) }()
+	defer func() {
+		srv.Close()
+		<-served
+	}()
+	conn, err := net.Dial(ln.Addr().Network(), ln.Addr().String())
+	if err != nil {
+		return h.F("harness-error", "dial: %v", err)
+	}
+	defer conn.Close()
+	// a generous real-time bound only so that a harness mistake cannot hang the check; hitting it is NOT a verdict
+	conn.SetDeadline(time.Now().Add(150 * time.Second))
+	br := bufio.NewReader(conn)
+	if _, err := br.ReadString('\n'); err != nil {
+		return h.F("harness-error", "%s: greeting: %v", desc, err)
+	}
+	if c.Pos == "after-ehlo" {
+		io.WriteString(conn, "EHLO c.example\r\n")
+		for {
+			l, err := br.ReadString('\n')
+			if err != nil {
+				return h.F("harness-error", "%s: EHLO: %v", desc, err)
+			}
+			if len(l) > 3 && l[3] == ' ' {
+				break
+			}
+		}
+	}
+	// the reader: everything the server says until it closes
+	got := make(chan []byte, 1)
+	go func() {
+		b, _ := io.ReadAll(br)
+		got <- b
+	}()
+	chunk := bytes.Repeat([]byte("x"), 64<<10)
+	sent := 0
+	var werr error
+	for sent < c19SockVolume {
+		n, err := conn.Write(chunk)
+		sent += n
+		if err != nil {
+			werr = err
+			break
+		}
+	}
+	if werr == nil {
+		return h.F("c19-endless-line-read", "%s: the client wrote %d octets of one line that never ends and no write failed: the server is still reading (and has not closed the connection)", desc, sent)
+	}
+	if ne, ok := werr.(net.Error); ok && ne.Timeout() {
+		fmt.Printf("  note: %s: the harness's 150 s guard ended the writes after %d octets (no verdict)\n", desc, sent)
+		return nil
+	}
+	conn.SetDeadline(time.Now().Add(150 * time.Second))
+	select {
+	case b := <-got:
+		// the reply can be lost to a connection reset (unread input in a closed socket); when one arrives it is the 500
+		if len(b) > 0 && !bytes.HasPrefix(b, []byte("500 ")) {
+			return h.F("c19-endless-line-reply", "%s: the server answered an endless line with %.80q", desc, b)
+		}
+	case <-time.After(160 * time.Second):
+		fmt.Printf("  note: %s: reader still waiting (no verdict)\n", desc)
+	}
+	return nil
+}
+
+func init() { h.RegisterReplayer("c19-sock", evalC19Sock) }
 
 // ---- short strings as command lines -----------------------------------------------
 
@@ -479,7 +640,7 @@ func C19(tier string) int {
 			}
 		}
 	}
-	run.Rule = fmt.Sprintf("(a) line limits %v x positions %v x {padded NOOP, padded MAIL command} x total line length limit-2..limit+4 x segmentation {line in one segment, one octet per segment, every 2-split of the line (limits 16, 64) / 2-splits around the limit (2000)}; (b) an endless LF-free line of 1 MiB at every position x {one segment, 4 KiB segments, per octet}: octets taken before closing <= limit + 2*4096; (c) ALL strings of <=%d octets over {NUL,CR,LF,SP,'A','a',':','<',0xFF} and ALL strings of up to 3 octets more over {CR,LF,'A',SP}, as command input in states {fresh, greeted, in transaction} x {one segment, per octet}; (d) ALL sequences of <=%d commands over {NOOP, unknown verb, mangled, empty line} and of one less over {NOOP, unknown, mangled, empty, too short, no space after the verb, MAIL} (two less), and over {unknown, mangled, RSET, repeated EHLO} x {fresh, greeted} x {one segment, one per line, per octet}; (f) ALL splits of <=4 bad commands over {unknown, mangled, empty} into a plaintext part (<=3) and a part inside TLS after a real STARTTLS handshake: the count runs per connection; (e) labelled supplement: seeded random binary input. Distinct by construction; non-trivial = line length within 2 of the limit or over it / string contains a control octet / sequence contains an error. Oracle: never a panic (escaped or recovered); >= limit+2: exactly one 500 5.4.0, closed, no backend call from the line or a prefix of it; <= limit: never refused for length, line and following NOOP answered; limit+1 not judged; exactly the 4th error closes with one extra 500.", limits, positions, strLen, seqLen)
+	run.Rule = fmt.Sprintf("(a) line limits %v x positions %v x {padded NOOP, padded MAIL command} x total line length limit-2..limit+4 x segmentation {line in one segment, one octet per segment, every 2-split of the line (limits 16, 64) / 2-splits around the limit (2000)}; (b) an endless LF-free line of 1 MiB at every position x {one segment, 4 KiB segments, per octet}: octets taken before closing <= limit + 2*4096; (c) ALL strings of <=%d octets over {NUL,CR,LF,SP,'A','a',':','<',0xFF} and ALL strings of up to 3 octets more over {CR,LF,'A',SP}, as command input in states {fresh, greeted, in transaction} x {one segment, per octet}; (d) ALL sequences of <=%d commands over {NOOP, unknown verb, mangled, empty line} and of one less over {NOOP, unknown, mangled, empty, too short, no space after the verb, MAIL} (two less), and over {unknown, mangled, RSET, repeated EHLO} x {fresh, greeted} x {one segment, one per line, per octet}; (f) ALL splits of <=4 bad commands over {unknown, mangled, empty} into a plaintext part (<=3) and a part inside TLS after a real STARTTLS handshake: the count runs per connection; (g) SASL responses of 100..8000 octets within a line limit raised to 4096 / 12288: delivered to the mechanism intact, no panic; (h) ALL lines of <=4 symbols over {dotless i, long s, I with dot, sharp s, Kelvin sign, capital sharp s, 0xFF, 0xC4, 'A', SP} (case mappings that change the UTF-8 length, invalid UTF-8); (i) REAL SOCKETS (Server.Serve on loopback TCP and on a Unix socket) x {first line, after EHLO} x {no read timeout, 10 min}: a client that writes one line that never ends must see a write fail before it has written 96 MiB (the server has answered, closed and stopped reading; the oracle counts octets, never seconds); (e) labelled supplement: seeded random binary input. Distinct by construction; non-trivial = line length within 2 of the limit or over it / string contains a control octet / sequence contains an error. Oracle: never a panic (escaped or recovered); >= limit+2: exactly one 500 5.4.0, closed, no backend call from the line or a prefix of it; <= limit: never refused for length, line and following NOOP answered; limit+1 not judged; exactly the 4th error closes with one extra 500.", limits, positions, strLen, seqLen)
 	run.Assumptions = []string{"'unrecognised or malformed command' = unknown verb, empty line, or a line parseCmd cannot split; commands with a known verb and bad arguments are not in the threshold sequences", "message lines inside DATA are not command lines and are not judged here", "known finding D6 (limiter counts BDAT payload sharing a raw read) is demonstrated by one directed family and matched by signature"}
 
 	h.ParallelFor(len(lineCases), func(i int) {
@@ -593,6 +754,66 @@ func C19(tier string) int {
 	})
 	run.Outcome("sequences-ok")
 
+	// (g) long SASL responses within a raised line limit
+	var lacases []C19LongAuthCase
+	for _, lim := range []int{4096, 12288} {
+		for _, n := range []int{100, 1400, 1499, 1500, 1501, 1900, 2500, 3000, 3071, 3072, 3073, 4500, 8000} {
+			for _, ini := range []bool{true, false} {
+				if (n+2)/3*4+12 < lim {
+					lacases = append(lacases, C19LongAuthCase{Limit: lim, Len: n, Initial: ini})
+				}
+			}
+		}
+	}
+	h.ParallelFor(len(lacases), func(i int) {
+		f := evalC19LongAuth(lacases[i])
+		run.Eval(true)
+		if f != nil {
+			run.Violate("c19-long-auth", lacases[i], f, func() *h.Finding { return evalC19LongAuth(lacases[i]) })
+			run.Outcome("violation:" + f.Sig)
+		}
+	})
+	// (h) characters whose upper/lower-case mapping changes their length in UTF-8, and invalid UTF-8, in short lines
+	var fold [][]byte
+	foldAlpha := []string{"\u0131", "\u017f", "\u0130", "\u00df", "\u212a", "\u1e9e", "\xff", "\xc4", "A", " "}
+	var recFold func(cur string, n int)
+	recFold = func(cur string, n int) {
+		fold = append(fold, []byte(cur+"\r\n"))
+		if n == 4 {
+			return
+		}
+		for _, a := range foldAlpha {
+			recFold(cur+a, n+1)
+		}
+	}
+	recFold("", 0)
+	h.ParallelFor(len(fold), func(i int) {
+		for _, st := range []string{"fresh", "greeted"} {
+			c := C19StrCase{State: st, S: fold[i]}
+			f := evalC19Str(c)
+			run.Eval(true)
+			if f != nil {
+				c.Show = fmt.Sprintf("%q", fold[i])
+				run.Violate("c19-str", c, f, func() *h.Finding { return evalC19Str(c) })
+				run.Outcome("violation:" + f.Sig)
+			}
+		}
+	})
+	// (i) real sockets: an endless line over loopback TCP and over a Unix socket (sequentially: 96 MiB each at most)
+	for _, nw := range []string{"tcp", "unix"} {
+		for _, pos := range []string{"first", "after-ehlo"} {
+			for _, rto := range []bool{false, true} {
+				c := C19SockCase{Network: nw, Pos: pos, ReadTO: rto}
+				f := evalC19Sock(c)
+				run.Eval(true)
+				if f != nil {
+					run.Violate("c19-sock", c, f, func() *h.Finding { return evalC19Sock(c) })
+					run.Outcome("violation:" + f.Sig)
+				}
+			}
+		}
+	}
+	run.Outcome("real-sockets-ok")
 	// (f) the error budget across a STARTTLS upgrade
 	var tcases []C19TLSCase
 	enumStrings([]byte("ume"), 3, func(b []byte) {
